@@ -84,6 +84,10 @@ class Relay(W.NetPolicy):
         self.count = {"q": 0, "a": 0}
         self.log = []       # (dir, n, fate)
         self.blackout = kw.get("blackout")      # list of (dir, t0, t1)
+        # re-delivery plan: {n: [(back, newid, flip, otherport, delay_us), ...]}: when the n-th query
+        # (since the counters were reset) is forwarded, also re-deliver the (n-back)-th one
+        self.redeliver = kw.get("redeliver", {})
+        self.qhist = []
 
     # -- transformations
     def _case(self, mode, b):
@@ -203,6 +207,27 @@ class Relay(W.NetPolicy):
             return []
         outs = self.query(world, dg) if to_server else self.answer(world, dg)
         res = []
+        if to_server and self.redeliver is not None:
+            n = self.count["q"] - 1
+            if outs and outs[0][2] == dg.dst and outs[0][0][:3] != proto.RAW_HDR:
+                self.qhist.append((n, dg.serial, outs[0]))
+            for back, newid, flip, otherport, delay in self.redeliver.get(n, self.redeliver.get(str(n), [])):
+                cands = [h for h in self.qhist if h[0] == n - back]
+                if not cands:
+                    continue
+                _, oserial, (odata, osrc, odst) = cands[0]
+                nd = odata
+                if newid and len(nd) > 2:
+                    nid = (struct.unpack(">H", nd[:2])[0] + 1000 + 17 * back) & 0xFFFF or 9
+                    self.idmap[(osrc, nid)] = self.idmap.get((osrc, struct.unpack(">H", nd[:2])[0]),
+                                                            struct.unpack(">H", nd[:2])[0])
+                    nd = struct.pack(">H", nid) + nd[2:]
+                if flip:
+                    nd = flipcase_qname(nd, self.ndom)
+                src2 = (osrc[0], osrc[1] + 1000) if otherport else osrc
+                res.append((self.latency + delay, nd, src2, odst,
+                            {"redeliver_of": oserial, "newid": bool(newid), "flip": bool(flip),
+                             "otherport": bool(otherport), "back": back}))
         for data, src, dst in outs:
             if f == "delay":
                 res.append((self.latency + self.rng.randrange(1000, self.max_delay), data, src, dst))
@@ -218,6 +243,17 @@ class Relay(W.NetPolicy):
                 res.append((self.latency + self.rng.randrange(0, 300000),
                             struct.pack(">H", nid) + data[2:], src, dst))
         return res
+
+
+def flipcase_qname(data, ndom):
+    """swap the case of every ASCII letter in the data labels of the question name"""
+    m = D.parse(data)
+    if m.errors or not m.qd:
+        return data
+    labels, qt, qc = m.qd[0]
+    nl = _map_labels(labels, lambda b: bytes((c ^ 0x20) if 65 <= (c & ~0x20) <= 90 and c < 128 else c for c in b), ndom)
+    has_edns = any(r.type == D.T_OPT for r in m.ar)
+    return D.build_query(m.id, nl, qt, edns=has_edns)
 
 
 # ------------------------------------------------------------------ packets
